@@ -30,7 +30,7 @@ Fixpoint run_until (n : nat) (t : nat) (P : pcs -> bool) (st : state) : state :=
   | S n' =>
     match nth_error (ths st) t with
     | Some l => if P (pc l) then st
-                else match step true t st with Some st' => run_until n' t P st' | None => st end
+                else match step cur t st with Some st' => run_until n' t P st' | None => st end
     | None => st
     end
   end.
